@@ -9,6 +9,7 @@ caught = missed = undec = gone = 0
 for seed in sorted(res):
     meta = json.loads((V / "seeded" / seed / "meta.json").read_text())
     summ = re.sub(r"\s+", " ", meta.get("summary", "")).strip()
+    summ = re.sub(r"[\x00-\x08\x0b\x0c\x0e-\x1f]", lambda m: "\\x%02x" % ord(m.group(0)), summ)        # control characters quoted (a seed about `\0` had one)
     summ = (summ[:150] + "…") if len(summ) > 150 else summ
     files = ", ".join(Path(f).name for f in meta.get("files_changed", []))
     cells, obl = [], []
